@@ -224,8 +224,28 @@ impl<'a, P: ?Sized + PathImpl> PathMutImpl<'a, P> {
 	#[inline]
 	pub fn normalize(&mut self) {
 		let mut buffer: SmallVec<[u8; NORMALIZE_IN_PLACE_BUFFER_LEN]> = SmallVec::new();
-		for (i, segment) in self.normalized_segments().enumerate() {
-			if i > 0 {
+		let segments = self.normalized_segments();
+		let count = segments.len();
+		for (i, segment) in segments.enumerate() {
+			if i == 0 {
+				// AMBIGUITY: Once the dot segments in front of it are removed,
+				//            a first segment that is empty would be lost
+				//            (`.//a` would become the absolute path `/a`, and
+				//            `s:/.//a` would become `s://a`), and a first
+				//            segment containing a `:` could be confused with
+				//            a scheme (`a/../b:c` would become `b:c`).
+				// SOLUTION:  We keep a `.` segment in front of it.
+				let shield = if segment.is_empty() {
+					self.is_relative() || !self.follows_authority || count == 1
+				} else {
+					self.is_relative()
+						&& self.start == 0 && parse::first_segment_has_colon(segment.as_bytes())
+				};
+
+				if shield {
+					buffer.extend_from_slice(b"./")
+				}
+			} else {
 				buffer.push(b'/')
 			}
 
